@@ -78,7 +78,7 @@ Tag(v) == IF v.k = "tup" /\ v.fs # <<>> /\ v.fs[1].k = "bin" THEN "btup"
           ELSE v.k
 Compatible(m, s) == \E i \in 1..Len(s.tys) : s.tys[i] = Tag(m)            \* check_message_compatible
 \* the filter body's verdict (a body that only calls an effect builtin and answers Ok accepts every message)
-FilterAccepts(m, s) == s.body = "effect" \/ \E i \in 1..Len(s.acc) : s.acc[i] = m
+FilterAccepts(m, s) == s.body \in {"effect", "effect_read"} \/ \E i \in 1..Len(s.acc) : s.acc[i] = m
 
 
 (* The documented readiness of a select source for a process-like record P with fields
